@@ -52,7 +52,7 @@ def run_spec(spec, *, connect_only=False, memory=None, location="spill", check_m
     def on_update_entry(comp):
         if not isinstance(comp, ITimeComponent):
             return
-        snap = dict(comp=comp.name, time=hrs(comp.time), next=hrs(comp.next_time))
+        snap = dict(comp=comp.name, time=hrs(comp.time), next=hrs(comp.next_time), min_time=min(hrs(c.time) for c in tcomps))
         if check_model:
             ok, reason, clen = model_sched.justified(comp, tcomps, owners)
             lk = model_sched.lacking(comp, owners)
